@@ -168,6 +168,24 @@ def gen_and_run(tier, seed, name, okm):
     return (reqs, exps, outs, r.stdout.strip()), ""
 
 
+def corpus_failing():
+    """Committed witnesses of the listed known findings (corpus/c14_known.txt: one recorded request per line) are re-evaluated
+    from their inputs with the current implementation on every run, so that a listed finding is reported (or seen to be gone)
+    whatever the seed generates."""
+    path = os.path.join(vlib.VERIF, "corpus", "c14_known.txt")
+    out = []
+    if not os.path.exists(path):
+        return out
+    for q in [l.strip() for l in open(path) if l.strip()]:
+        rr = vlib.harness(["c14-replay"] + q.split(" "))
+        for l in rr.stdout.strip().splitlines():
+            if l.startswith("c14"):
+                v = vlib.run_model([l])[0]
+                if v != "holds":
+                    out.append((l, v, "corpus"))
+    return out
+
+
 def report_failing(run, failing, panics):
     """Oracle verdict `false` on an implementation output = failing input."""
     by_key = collections.OrderedDict()
@@ -181,6 +199,9 @@ def report_failing(run, failing, panics):
                    f"failing cases of this class: {len(items)}\n" +
                    "\n".join(f"also: {a} | {b} | {c}" for a, b, c in items[1:40]))
         run.violation(f"failing_{key or 'input'}.txt", content, key=key)
+        if key:
+            with open(os.path.join(vlib.WORK, f"c14_witness_{key}.txt"), "w") as f:   # development aid: witness of a known-finding class
+                f.write(content)
     if panics:
         q, e = panics[0]
         run.violation("failing_panic.txt", f"request: {q}\nimplementation: {e}\nall ({len(panics)}):\n" +
@@ -269,6 +290,10 @@ def run(tier, seed):
             failing += ev2["failing"]
             panics += ev2["panics"]
             cov["evaluations"] += int(r2[3].split()[-1]) if r2[3].startswith("bases") else 0
+    if okm:
+        cf = corpus_failing()
+        cov["corpus_witnesses_failing"] = len(cf)
+        failing += cf
     report_failing(run, failing, panics)
     unkeyed = [f for f in failing if finding_key(f[0], f[1]) is None] or panics
     if (corr_broken or proof_broken) and not unkeyed:
